@@ -400,6 +400,8 @@ fn unjudged_decls(out: &mut Vec<Decl>) {
         "enum E { #[darling(word = false)] A, #[darling(word = false)] B, #[darling(word = false)] C }",
         "enum E { #[darling(word = false)] A, #[darling(word)] B }",
         "#[darling(from_word = f)] enum E { #[darling(word = false)] A, B }",
+        "#[darling(::map = f)] struct S { a: u8 }",
+        "#[darling(::and_then = f, ::default)] struct S { #[darling(::map = f, ::skip)] a: u8 }",
         "#[darling(supports(struct_named, enum_any = true))] struct S { a: u8 }",
         "#[darling(supports(struct_named, \"lit\"))] struct S { a: u8 }",
         "#[darling(supports(struct_named(x), enum_any))] struct S { a: u8 }",
